@@ -448,7 +448,16 @@ func MavenSpaces() []*Space {
 		{vi("g:c", "1"), Req{Pkg: "g:a", Ver: "2"}},
 		{vi("g:a", "2"), Req{Pkg: "g:b", Ver: "2"}},
 	}
-	return []*Space{newSpace(d, "empty", nil), newSpace(d, "chain", chain), newSpace(d, "tree", tree)}
+	// nested exclusions: r -> a [excl g:c]; a@1 -> b [excl g:a]; b@1 -> c; c@2 -> b [excl g:a]: the exclusion text
+	// "g:a" occurs below an ancestor that excludes g:c and, from another root, below none - a resolver that lets
+	// what it learnt under one ancestry leak into the other loses the edge b -> c.
+	nested := []tmplReq{
+		{vi("g:r", "1"), Req{Pkg: "g:a", Ver: "1", Excl: "g:c"}},
+		{vi("g:a", "1"), Req{Pkg: "g:b", Ver: "1", Excl: "g:a"}},
+		{vi("g:b", "1"), Req{Pkg: "g:c", Ver: "1"}},
+		{vi("g:c", "2"), Req{Pkg: "g:b", Ver: "1", Excl: "g:a"}},
+	}
+	return []*Space{newSpace(d, "empty", nil), newSpace(d, "chain", chain), newSpace(d, "tree", tree), newSpace(d, "nested-excl", nested)}
 }
 
 // ---------------- PyPI ----------------
